@@ -166,6 +166,9 @@ pub fn search(prop: &dyn Prop, tier: Tier, seed: u64, run_from: u64, run_to: u64
                             break;
                         }
                         let trace = prop.gen(seed, run, tier);
+                        if cfg!(miri) {
+                            println!("MIRI-RUN {}", run);
+                        }
                         {
                             let mut g = IN_FLIGHT.lock().unwrap();
                             g[w] = Some((run, Instant::now()));
